@@ -6,7 +6,7 @@ import json, os, re
 from collections import Counter
 
 HARNESSES = [("http", ["http/zz_verif_c04_test.go"], "c04http"),
-             ("http/tokenV2", ["http/tokenV2/zz_verif_c17_test.go"], "c04tok")]
+             ("http/tokenV2", ["http/tokenV2/zz_verif_c17_test.go", "http/tokenV2/zz_verif_export.go"], "c04tok")]
 PKG, HARNESS = HARNESSES[0][0], HARNESSES[0][1]
 
 INTERNAL_BINDS = {"internal", "status", "metrics", "health"}
